@@ -40,7 +40,7 @@ type sres struct {
 // TestPropSetStateSchedules: racing reports / removals / resizes under a harness-owned schedule.
 func TestPropSetStateSchedules(t *testing.T) {
 	sub := stats.NewSub("setstate-schedules", "rapid + deterministic scheduler (statement-level schedule points and scheduler-aware mutexes inserted into maxinflight.go by AST rewriting at check time): 2-3 logical threads, each a script of 1-3 ops (report n, removal, resize) on one global max-in-flight flow control, over 1-2 instances so that threads collide, after 0-2 reports processed beforehand; one report in two repeats the count last reported for its instance (a resync); the interleaving is given by 0-5 rapid-drawn pre-emption points (shrinks like any input); oracle at quiescence: running total == per-instance total == sum of details, nothing negative, sum <= limit when the limit was never lowered, each instance's final count is 0 (removed / never reported) or the value of one of its applied reports, a sequential probe with the largest id used is refused; deadlock or panic is a violation; non-trivial = at least one thread is pre-empted before its script ends; distinct by FNV-64 of (scripts, schedule)")
-	stats.Check(t, stats.N(12000, 80000), func(t *rapid.T) {
+	stats.Check(t, stats.N(20000, 80000), func(t *rapid.T) {
 		max := int32(rapid.IntRange(1, 8).Draw(t, "max"))
 		nThreads := rapid.IntRange(2, 3).Draw(t, "threads")
 		insts := []string{"i1", "i2"}
